@@ -5,6 +5,8 @@ import XzVerif.Proofs.Fuel
 import XzVerif.Proofs.LazyDec2
 import XzVerif.Proofs.LazyXz
 import XzVerif.Proofs.EofStable
+import XzVerif.Proofs.Src
+import XzVerif.Gen.SrcReads
 /-
   C13 — Decoded output is independent of read sizes and source fragmentation; EOF is stable.
 
@@ -409,5 +411,93 @@ theorem C13_xz_eof_stable (cfgCap : Nat) (single : Bool) (inp : ByteArray) (x : 
     (h : LazyXz.newReader cfgCap single inp = .ok x) (lens : List Nat) :
     EofStable.StableAfterEof true lens (EofStable.seqX x lens) :=
   EofStable.xz_eof_stable cfgCap single inp x h lens
+
+/-! ### SRC-BLOCK: the source may fragment its data in any way
+
+  "… however the underlying source fragments its data (one byte at a time, short reads, data returned together with
+  EOF)".  The reader models above read from the whole input at a position.  That this is what the code sees whatever the
+  source does rests on two things, both checked on every run:
+
+  1. a pinned fact, regenerated from /repo with go/types (`Gen.srcReads`): the packages never call `Read` on a
+     caller-supplied source except through `io.ReadFull`, `io.CopyN`, `io.LimitReader`, `io.TeeReader` and the
+     one-byte reads of `breader.ReadByte` (plus the counting pass-through wrapper; the remaining interface `Read` calls
+     are on the block's own LZMA2 reader and on the current chunk reader, not on the source);
+  2. theorems about those access functions as the Go standard library implements them (Model/Src.lean, tied to the real
+     functions by the harness on fragmenting sources): for EVERY fragmentation (`frag : Nat → Nat`, any number of bytes
+     ≥ 1 per call), with the end reported alone or together with the last bytes, and for a source that ends with io.EOF
+     or fails, each access returns exactly the next bytes of the whole input and the status the reader models assume
+     (`Src.view…`).  One exception exists and is stated: the doubly limited copy of an uncompressed LZMA2 chunk when a
+     FAILING source hands out its error together with the chunk's last bytes (the error is then reported one access
+     earlier; never a clean end) — not a fragmentation of a source that ends with io.EOF. -/
+
+/-- functions of io that the reader side may hand a source to -/
+def accessFns : List String := ["io.ReadFull", "io.CopyN", "io.LimitReader", "io.TeeReader", "io.Copy"]
+
+/-- (function, callee): the direct `Read` / `ReadByte` calls on interface-typed values, each reviewed -/
+def directReaders : List (String × String) :=
+  [("blockReader.Read", "(io.Reader).Read"),        -- the block's filter chain (the LZMA2 reader), not the source
+   ("Reader2.Read", "(io.Reader).Read"),            -- the current chunk reader (decoder or uncompressedReader)
+   ("countingReader.Read", "(io.Reader).Read"),     -- pass-through wrapper that counts the bytes
+   ("breader.ReadByte", "(io.Reader).Read"),        -- one byte per call: `Src.readByte`
+   ("readUvarint", "(io.ByteReader).ReadByte"),
+   ("newRangeDecoder", "(io.ByteReader).ReadByte"),
+   ("rangeDecoder.updateCode", "(io.ByteReader).ReadByte")]
+
+theorem C13_source_reached_only_through_the_access_layer :
+    Gen.srcReads.all (fun r => accessFns.contains r.2.2 || directReaders.contains (r.2.1, r.2.2)) = true := by
+  decide +kernel
+
+example : Gen.srcReads.length ≥ 20 ∧ Gen.srcReads.any (fun r => r.2.2 == "io.ReadFull") = true ∧
+    Gen.srcReads.any (fun r => r.2.2 == "(io.Reader).Read") = true := by decide +kernel
+
+open Src in
+theorem C13_readFull_any_fragmentation (s : S) (n : Nat) (h : s.pos ≤ s.data.size) :
+    ((readFull s n).1.pos, (readFull s n).2.1, (readFull s n).2.2) = viewReadFull s.data s.pos s.ends n ∧
+    Same s (readFull s n).1 :=
+  readFull_view s n h
+
+open Src in
+theorem C13_readByte_any_fragmentation (s : S) (h : s.pos ≤ s.data.size) :
+    ((readByte s).1.pos, (readByte s).2.1, (readByte s).2.2) = viewReadByte s.data s.pos s.ends ∧
+    Same s (readByte s).1 :=
+  readByte_view s h
+
+open Src in
+theorem C13_copyN_any_fragmentation (s : S) (n : Nat) (h : s.pos ≤ s.data.size) :
+    ((copyN s n).1.pos, (copyN s n).2.1, (copyN s n).2.2) = viewCopyN s.data s.pos s.ends n ∧
+    Same s (copyN s n).1 :=
+  copyN_view s n h
+
+open Src in
+theorem C13_chunk_copy_any_fragmentation (s : S) (N want : Nat) (h : s.pos ≤ s.data.size) (hx : ¬ LimException s N want) :
+    ((copyLim s N want).1.pos, (copyLim s N want).2.1, (copyLim s N want).2.2.1, (copyLim s N want).2.2.2) =
+      viewCopyLim s.data s.pos s.ends N want ∧
+    Same s (copyLim s N want).1 :=
+  copyLim_view s N want h hx
+
+open Src in
+/-- the exception: same bytes, the source's error (never a clean status) -/
+theorem C13_chunk_copy_exception (s : S) (N want : Nat) (h : s.pos ≤ s.data.size) (hx : LimException s N want) :
+    ((copyLim s N want).1.pos, (copyLim s N want).2.1, (copyLim s N want).2.2.1, (copyLim s N want).2.2.2) =
+      (s.pos + N, 0, s.data.extract s.pos (s.pos + N), St.src) ∧
+    Same s (copyLim s N want).1 :=
+  copyLim_exception s N want h hx
+
+open Src in
+/-- two sources with the same bytes, position and kind of end, fragmenting in any two ways, ending with io.EOF: every
+    access gives the same bytes and status and leaves them in the same relation — so does every sequence of accesses -/
+theorem C13_accesses_fragmentation_independent (a b : S) (ha : a.pos ≤ a.data.size) (hab : SameView a b) (he : a.ends = .eof) :
+    (∀ n, (readFull a n).2 = (readFull b n).2 ∧ SameView (readFull a n).1 (readFull b n).1) ∧
+    ((readByte a).2 = (readByte b).2 ∧ SameView (readByte a).1 (readByte b).1) ∧
+    (∀ n, (copyN a n).2 = (copyN b n).2 ∧ SameView (copyN a n).1 (copyN b n).1) ∧
+    (∀ N want, (copyLim a N want).2 = (copyLim b N want).2 ∧ SameView (copyLim a N want).1 (copyLim b N want).1) :=
+  ⟨fun n => readFull_frag_independent a b n ha hab, readByte_frag_independent a b ha hab,
+   fun n => copyN_frag_independent a b n ha hab, fun N want => copyLim_frag_independent_eof a b N want ha hab he⟩
+
+/-- non-vacuity: a source of seven bytes, one byte per call and the end together with the last byte -/
+example : (Src.readFull (Src.exSrc (fun _ => 1) true .eof) 5).2.2 = .ok ∧
+    (Src.readFull (Src.exSrc (fun i => i + 1) false .eof) 9).2.2 = .unexpectedEOF := by decide
+
+/-! ### END-SRC-BLOCK -/
 
 end Props.C13
